@@ -153,3 +153,62 @@ func H_base_code() {
 	}
 	symx.Reach("end")
 }
+
+// H_base_after: a request runs on a temporary VM, THEN code runs on the base VM (a later boot
+// step, a background job): what that code defines belongs to the base (resolvable through the
+// base and through every temporary VM), and what it can see is the base's own definitions only.
+func H_base_after() {
+	what := symx.Choose("script", 5)
+	bp := parser.NewParser()
+	base := runtime.NewVM(bp)
+	base.SetThrowControl(func(acl data.Control) {})
+	data.WriteOutput = func(string) {}
+	scripts := []string{
+		"class InA { public $v = 1; } $o = new InA(); $r = $o->v;",
+		"function inf() { return 2; } $r = inf();",
+		"interface InI { } class InA implements InI { const K = 3; public static $s = 4; }",
+		"class InA { }",
+		"$r = 1;",
+	}
+	t1 := runtime.NewTempVM(base).(*runtime.TempVM)
+	p := t1.PrepareParse(bp)
+	prog, ctl := p.ParseString(scripts[what], "req.zy")
+	symx.Assert(ctl == nil && prog != nil, "request script parses")
+	if ctl != nil || prog == nil {
+		return
+	}
+	if _, rctl := prog.GetValue(t1.CreateContext(p.GetVariables())); rctl != nil {
+		symx.Assert(false, "request script runs")
+		return
+	}
+	// now the base VM runs a script of its own
+	bp2 := parser.NewParser()
+	bp2.SetVM(base)
+	bprog, bctl := bp2.ParseString("function basefn() { return 7; }\nclass BaseC { public $v = 8; }\n$seen = 0; try { $o = new InA(); $seen = 1; } catch (Throwable $e) { $seen = 0; }", "job.zy")
+	symx.Assert(bctl == nil && bprog != nil, "base script parses")
+	if bctl != nil || bprog == nil {
+		return
+	}
+	bvars := bp2.GetVariables()
+	bctx := base.CreateContext(bvars)
+	_, rctl := bprog.GetValue(bctx)
+	symx.Assert(rctl == nil, "base script runs")
+	if rctl != nil {
+		return
+	}
+	_, okF := base.GetFunc("basefn")
+	_, okC := base.GetClass("BaseC")
+	symx.Assert(okF && okC, "what code on the base VM defines is registered on the base VM")
+	t2 := runtime.NewTempVM(base)
+	_, okF2 := t2.GetFunc("basefn")
+	_, okC2 := t2.GetClass("BaseC")
+	symx.Assert(okF2 && okC2, "everything defined on the base VM is resolvable through a later temporary VM")
+	for _, v := range bvars {
+		if v.GetName() == "seen" {
+			val, _ := v.GetValue(bctx)
+			iv, isInt := val.(*data.IntValue)
+			symx.Assert(isInt && iv.Value == 0, "code on the base VM cannot instantiate a class only a request defined")
+		}
+	}
+	symx.Reach("end")
+}
